@@ -9,7 +9,7 @@ from typing import Awaitable, Callable, Union, cast
 
 from x690 import decode
 from x690.types import Integer, Null, ObjectIdentifier, OctetString, Sequence
-from x690.util import INDENT_STRING
+from x690.util import INDENT_STRING, get_value_slice
 
 import puresnmp.plugins.auth as auth
 import puresnmp.plugins.priv as priv
@@ -51,6 +51,32 @@ def reset_digest(message: Message) -> Message:
         security_parameters=bytes(neutral),
     )
     return output
+
+
+def reset_digest_in_raw(raw: bytes) -> bytes:
+    """
+    Replace the message-digest with zeroes in the bytes of a message as it was
+    received from the network.
+
+    Incoming messages must be authenticated over exactly the bytes that were
+    received (:rfc:`3414#section-6.3.2`). Decoding a message and encoding it
+    again does not necessarily reproduce these bytes.
+
+    :param raw: The bytes of a whole SNMPv3 message
+    :returns: The same bytes with a zeroed digest
+    """
+    message, _ = get_value_slice(raw, 0)
+    index = message.start
+    for _ in range(2):  # skip the version and the header-data
+        _, index = get_value_slice(raw, index)
+    security_parameters, _ = get_value_slice(raw, index)
+    usm, _ = get_value_slice(raw, security_parameters.start)
+    index = usm.start
+    for _ in range(4):  # skip the engine-id, boots, time and user-name
+        _, index = get_value_slice(raw, index)
+    digest, _ = get_value_slice(raw, index)
+    zeroes = b"\x00" * (digest.stop - digest.start)
+    return raw[: digest.start] + zeroes + raw[digest.stop :]
 
 
 class USMError(SnmpError):
@@ -320,10 +346,13 @@ def verify_authentication(
         )
 
     auth_method = auth.create(credentials.auth.method)
-    without_digest = reset_digest(message)
+    if message.raw:
+        without_digest = reset_digest_in_raw(message.raw)
+    else:
+        without_digest = bytes(reset_digest(message))
     is_authentic = auth_method.authenticate_incoming_message(
         credentials.auth.key,
-        bytes(without_digest),
+        without_digest,
         security_params.auth_params,
         security_params.authoritative_engine_id,
     )
